@@ -190,7 +190,7 @@ pub fn run(ctx: &mut LaneCtx) {
     ctx.run_sub(
         SubSpec {
             name: "prefix-snapshots",
-            cases: (96, 6_000),
+            cases: (128, 6_000),
             rule: "generated scenarios (as C01, up to 6 extra threads) dumped into a recording destination; EVERY write boundary of each scenario is decoded in truncation mode and an I/O error is injected at EVERY destination call in turn (exhaustive per scenario); non-trivial = scenario has boundaries between the append of a stream and the write of its directory entry; distinct = hash of scenario",
             strategy: c01::case_strategy(7).boxed(),
             max_shrink_iters: 100,
